@@ -10,8 +10,8 @@ import (
 	"fmt"
 	"os"
 	"strconv"
-	"syscall"
 	"strings"
+	"syscall"
 
 	"verif/engine"
 )
@@ -104,10 +104,6 @@ func bound(tier string) string {
 		"shapes x %d argument lists, every ordered pair over a %d-directive core, %d wrappers x every directive x 4 modifier sets, the "+
 		"huge literal parameter on every directive",
 		string(syntax12), nf, np, len(quickPairNames), len(fmtParams), len(fmtArgLists), len(core66()), len(wrappers))
-}
-
-func selftest(tier string) (killed, total int, notes []string) {
-	return 0, 0, nil
 }
 
 // execCalls counts the cases this process has been given (1:1 with the
